@@ -744,7 +744,11 @@ class Remoter(tyming.Tymee):
         Service receives until no more
         """
         while not self.cutoff:
-            data = self.receive()
+            try:
+                data = self.receive()
+            except BrokenPipeError:  # far side has gone away
+                self.cutoff = True  # this signals need to close/reopen connection
+                break
             if not data:
                 break
             self.rxbs.extend(data)
@@ -819,7 +823,11 @@ class Remoter(tyming.Tymee):
         If partial send reattach and return
         """
         while self.txbs and not self.cutoff:
-            count = self.send(self.txbs)
+            try:
+                count = self.send(self.txbs)
+            except BrokenPipeError:  # far side has gone away
+                self.cutoff = True  # this signals need to close/reopen connection
+                break
             del self.txbs[:count]
             break  # try again later
 
